@@ -34,8 +34,18 @@ func init() {
 			"Non-trivial = block with deletions applied under a non-canonical encoding; distinct = distinct (alive pattern, deletion slots in order, encoding).",
 		Assumptions: []string{"SHA-512/256 collision freedom", "reference model correct", "encodings the verifier rejects are not applied (rejecting a non-canonical encoding is allowed); the block then uses the canonical proof"},
 		MinDistinct: 100,
-		Plan:        func(tier string) []core.Suite { return c05Plan(tier).suites() },
+		Plan: func(tier string) []core.Suite {
+			n := 2500
+			if tier == "thorough" {
+				n = 80000
+			}
+			return append(c05Plan(tier).suites(), core.Suite{Name: "undo", N: n})
+		},
 		Run: func(c *core.Ctx) {
+			if c.Suite == "undo" {
+				c05Undo(c)
+				return
+			}
 			h := c05Plan(c.Tier).history(c)
 			cfgs := StdCfgs(c.Rng, c.Tier, c.Index)
 			if c.Suite == "tall" {
@@ -64,6 +74,45 @@ func init() {
 	})
 }
 
+// c05Undo: a forest scenario with undo, then 2-4 further blocks under re-encoded proofs.
+func c05Undo(c *core.Ctx) {
+	tag := uint64(c.Seed)<<32 | uint64(c.Index) | 1<<55
+	cfgs := []InstCfg{{Kind: "pollard"}, {"mapfull", 63}, {"mapfull", []uint8{0, 4, 50}[c.Index%3]}, {"mappartial", []uint8{63, 0, 2}[c.Index%3]}}
+	prof := gen.Tiny
+	if c.Index%3 == 0 {
+		prof = gen.Small
+	}
+	prof.RememberMode = 1
+	fs := genForestScenario(c.Rng, tag, cfgs, fGenOpts{Profile: prof, Rounds: 1 + c.Rng.Intn(3), Undo: true, ForceEmptyRootOverwrite: c.Index%2 == 0})
+	fs.FromRootsAt = -1
+	// the end state of the scenario, on the model alone
+	m := &rm.Model{}
+	var stack []*rm.Model
+	var ctr uint64
+	for _, op := range fs.Ops {
+		switch op.Kind {
+		case "block":
+			stack = append(stack, m.Clone())
+			gen.ApplyToModel(m, *op.Block, tag, &ctr)
+		case "undo":
+			for i := 0; i < op.K && len(stack) > 0; i++ {
+				m = stack[len(stack)-1]
+				stack = stack[:len(stack)-1]
+			}
+		}
+	}
+	var tail []gen.Block
+	for i := 0; i < 2+c.Rng.Intn(3); i++ {
+		b := gen.NextBlock(c.Rng, m, prof, len(m.Leaves) == 0)
+		if i == 0 && len(m.Live()) > 0 && len(b.Dels) == 0 {
+			b.Dels = gen.PickDels(c.Rng, m, 1) // the first block after the undo should delete something
+		}
+		gen.ApplyToModel(m, b, tag, &ctr)
+		tail = append(tail, b)
+	}
+	c05Check(c, histScenario{Forest: &fs, History: gen.History{Tag: tag, Blocks: tail}, Cfgs: cfgs, Extra: c.Index})
+}
+
 func c05Check(c *core.Ctx, s histScenario) {
 	c.SetScenario(s)
 	rot := 0
@@ -73,11 +122,22 @@ func c05Check(c *core.Ctx, s histScenario) {
 	case float64:
 		rot = int(v)
 	}
-	w := NewWorld(s.History.Tag, s.Cfgs)
+	var w *World
+	lcOK := true
+	if s.Forest != nil {
+		// states reached through undo: the block encodings are applied after the forest scenario
+		w = runForest(c, *s.Forest, func(site, clause, trigger, detail string) { c.Violate(site, "setup:"+clause, trigger, detail) }, nil)
+		if w == nil || c.CaseViolations() > 0 {
+			return
+		}
+		lcOK = false // the light client of the cached-proof encoding does not follow undo
+		c.Count("histories_continued_after_undo", 1)
+	} else {
+		w = NewWorld(s.History.Tag, s.Cfgs)
+	}
 	// light client remembering everything (source of "cached-proof-subset")
 	var lcProof u.Proof
 	var lcHashes []Hash
-	lcOK := true
 	for bi, b := range s.History.Blocks {
 		rec := w.PrepareBlock(b)
 		f := rec.Before.Forest()
